@@ -29,5 +29,7 @@ var Targets = []Target{
 	{Dir: eng + "config", Type: "TxnPoliciesAccessor", Pkg: "config"},
 	{Dir: eng + "utils/queue", Type: "DelayedPriorityQueue", Pkg: "queue", Init: []string{"NewInMemoryDelayedPriorityQueue"}},
 	{Dir: eng + "utils/limit", Type: "singleRateLimitState", Pkg: "limit"},
+	{Dir: eng + "services/remedies", Type: "StrategyBasedQueuePlugin", Pkg: "remedies", Only: []string{"queues"}},
+	{Dir: eng + "services/remedies", Type: "StrategyBasedThrottlingPlugin", Pkg: "remedies"},
 	{Dir: eng + "utils/limit", Type: "RateLimitState", Pkg: "limit"},
 }
